@@ -563,6 +563,20 @@ class PoolHarness:
             pass
 
 
+def submits_at_timeout():
+    """Which of the two designs Pool.tla allows does the code under test follow: is the replacement of a connection
+    that reached its orphan threshold requested by the timeout that finds it reached (True) or by the next borrow?"""
+    h = PoolHarness({"MaxId": 2, "Threshold": 1, "Reqs": {1}, "NConns": 2, "MaxFails": 0, "MaxConnFails": 0})
+    try:
+        for name in ("BorrowStart", "BorrowTake", "Send", "Timeout"):
+            h.do({"name": name, "r": 1, "c": 0, "f": False})
+        return bool(h.pool._is_replacing)
+    except Exception:
+        return False
+    finally:
+        h.teardown()
+
+
 # ---------------------------------------------------------------------- spec state <-> projection
 def _fn(v):
     if isinstance(v, tuple):
@@ -638,6 +652,8 @@ def owner(signature, act, post, d):
         return "C12"
     if signature.startswith("close_log:"):
         return "C13"
+    if "thr" in d:
+        return "C13"          # the latched "orphan threshold reached" flag decides whether the old connection is ever retired
     if not post["shutdown"]:
         if "trash" in d:
             return "C13"
